@@ -320,3 +320,14 @@ Definition relevant_prefix (W : world) (h : list (op W)) (o : op W) : list (op W
   | EngMatch _ => match last_parse W h with Some f => [EngParse f] | None => [] end
   | _ => []
   end.
+
+(* All process-level state of the classification modules that the model accounts for: the two caches and the
+   cached engine (+ its path, written only), and — when the tree has it — the show-once error set (stderr only).
+   Anything else the extractor finds (a new module-level dict, a global declaration, a class-level container, a
+   mutable default, a caching decorator, a function attribute) is state this model does not know. *)
+Definition expected_process_state (reports : bool) : list string :=
+  ["expr_parser:_expression_cache"; "expr_parser:_regex_cache";
+   "merchant_utils:_cached_engine"; "merchant_utils:_cached_engine_path"] ++
+  (if reports then ["merchant_utils:_reported_load_errors"] else []) ++
+  ["merchant_utils:global@clear_engine_cache:_cached_engine,_cached_engine_path";
+   "merchant_utils:global@get_all_rules:_cached_engine,_cached_engine_path"].
